@@ -320,7 +320,10 @@ def base_cases() -> List[Tuple[str, Any]]:
             continue
         if "_map_wrap_" in tc.msg.name:
             continue  # map<K, wrapper> is a separate known finding (KF-map-wrapper-values)
-        vals = [v for v in tc.values if av.normalize(u.schema, tc.msg, v)]
+        # (the universe's size-boundary values - hundreds of elements - are left to the
+        # large-payload family below: every fault position on them would be millions of inputs)
+        vals = [v for v in tc.values if av.normalize(u.schema, tc.msg, v)
+                and not any(isinstance(x, (list, dict)) and len(x) > 16 for x in v.values())]
         picked = vals[:1] + vals[len(vals) // 2: len(vals) // 2 + 1] + vals[-1:]
         seen = []
         for v in picked:
